@@ -81,3 +81,147 @@ Theorem C15_invariant_reachable :
     wfc c -> Forall (Inv c) (states (step_st c) (init c) evs).
 Proof. exact reach_Inv. Qed.
 Print Assumptions C15_invariant_reachable.
+
+(* ---- improvement round ---- *)
+
+(* Clause "decided within timeout_duration of its arrival", end to end: a waiting caller polled at or after
+   arrival + timeout is decided by that poll (admitted or rejected) - it never goes back to sleep ... *)
+Theorem C15_decided_by_deadline :
+  forall (c : cfg) (s : st) (i : nat) (start : Z) (u : wait),
+    wfc c -> Inv c s -> cs s i = Sleeping start u -> start + timeout c <= now s ->
+    forall st' u', cs (fst (poll c s i)) i <> Sleeping st' u'.
+Proof. exact decided_by_deadline. Qed.
+Print Assumptions C15_decided_by_deadline.
+
+(* ... and it is told to come: in every reachable state, a sleeping caller whose deadline (which is
+   <= arrival + timeout by C15_sleeping_within_timeout) has passed has had its waker fired. *)
+Theorem C15_woken_when_due :
+  forall (c : cfg) (evs : list ev),
+    wfc c ->
+    Forall (fun s => forall i start u, cs s i = Sleeping start u -> due u (now s) = true -> woken s i = true)
+           (states (step_st c) (init c) evs).
+Proof. exact woken_when_due. Qed.
+Print Assumptions C15_woken_when_due.
+
+(* "admitted at once when the current window has spare capacity", for whoever asks now: a new caller or a
+   waiter whose sleep is over (tries_now) starts its inner call in this poll if the limiter answers Ok(ZERO) *)
+Theorem C15_admitted_when_asked :
+  forall (c : cfg) (s : st) (i : nat) (start : Z),
+    ((cs s i = Created /\ start = now s) \/ (exists u, cs s i = Sleeping start u /\ due u (now s) = true)) ->
+    snd (try_acquire c (now s) (lm s)) = AOk None ->
+    started (snd (poll c s i)) = true /\ entered (fst (poll c s i)) i = entered s i + 1 /\
+    (cs (fst (poll c s i)) i = Running \/ cs (fst (poll c s i)) i = Done).
+Proof. exact admitted_when_asked. Qed.
+Print Assumptions C15_admitted_when_asked.
+
+(* fixed window, spare capacity read on the admission history: in every reachable state, if the newest
+   window holds fewer than limit admissions, or its period is over, the limiter answers Ok(ZERO) *)
+Theorem C15_fixed_spare_capacity_history :
+  forall (c : cfg) (evs : list ev),
+    wfc c -> wt c = Fixed ->
+    Forall (fun s => forall st0 a rest, wins (lm s) = (st0, a) :: rest ->
+              (Z.of_nat (length a) < limit c \/ st0 + period c <= now s) ->
+              snd (try_acquire c (now s) (lm s)) = AOk None)
+           (states (step_st c) (init c) evs).
+Proof. exact fixed_spare_history. Qed.
+Print Assumptions C15_fixed_spare_capacity_history.
+
+(* sliding counter: spare capacity by its own weighted estimate (after rotation, e ms into the bucket) *)
+Theorem C15_counter_spare_capacity :
+  forall (c : cfg) (t : Z) (l : lim),
+    let l1 := rotate c t l in
+    let e := Z.min (Z.max 0 (t - bucket_start l1)) (period c) in
+    prevc l1 * (period c - e) + curc l1 * period c < limit c * period c ->
+    snd (counter_try c t l) = AOk None.
+Proof. exact counter_spare. Qed.
+Print Assumptions C15_counter_spare_capacity.
+
+(* Clause "admitted later only by taking a permit of a later window", fixed window: in every reachable
+   state, when a waiting caller's poll starts its inner call, the window it is admitted in started strictly
+   after the caller's arrival. *)
+Theorem C15_fixed_later_window :
+  forall (c : cfg) (evs : list ev),
+    wfc c -> wt c = Fixed ->
+    Forall (fun s => forall i start u, cs s i = Sleeping start u ->
+              started (snd (poll c s i)) = true -> start < period_start (lm (fst (poll c s i))))
+           (states (step_st c) (init c) evs).
+Proof. exact fixed_later_window. Qed.
+Print Assumptions C15_fixed_later_window.
+
+(* Reading adopted for the sliding log and the sliding counter (and true of the fixed window too): there a
+   "window" is the interval of one period ending at the instant of the decision; a caller that had to wait
+   (the limiter did not answer Ok(ZERO) at its arrival) is admitted at an instant strictly after its arrival,
+   i.e. by the window ending at a later instant than the one that was full when it arrived. *)
+Theorem C15_waiter_admitted_later_instant :
+  forall (c : cfg) (evs : list ev),
+    wfc c ->
+    Forall (fun s => forall i start u, cs s i = Sleeping start u ->
+              started (snd (poll c s i)) = true -> start < now s)
+           (states (step_st c) (init c) evs).
+Proof. exact waiter_admitted_later_instant. Qed.
+Print Assumptions C15_waiter_admitted_later_instant.
+
+(* The PARTITION reading of the clause (a window = a bucket, or any window of a valid C02 cutting) is FALSE
+   for the sliding counter, of the model and of the code (same script
+   "2 1 16 100 3  1 0 0  3 16 0  1 1 0  2 1 0  1 2 0  3 2 0  1 2 0"): a caller arrives at 16 in the bucket that
+   starts at 16, waits, and is admitted at 18 in that same bucket (the weighted estimate decays inside a bucket).
+   With "2 2 16 100 6  3 15 0  1 0 0  1 1 0  3 1 0  1 2 0  3 1 0  1 2 0  1 3 0  3 1 0  1 4 0  3 7 0  1 4 0"
+   (admissions 15,15,17,25; caller 4 arrives 18, admitted 25) no valid cutting at all has a cut in (18,25].
+   Agreed with the coordinator: not a defect; the partition reading applies to the fixed window only. *)
+Theorem C15_counter_later_window_refuted :
+  exists (c : cfg) (evs : list ev) (i : nat) (start : Z) (u : wait),
+    wfc c /\ wt c = SlidingCounter /\
+    let s := fold_left (step_st c) evs (init c) in
+    cs s i = Sleeping start u /\ started (snd (poll c s i)) = true /\
+    bucket_start (lm (fst (poll c s i))) <= start /\
+    wins (lm (fst (poll c s i))) = [(16, [18]); (0, [0])].
+Proof. exact counter_later_window_refuted. Qed.
+Print Assumptions C15_counter_later_window_refuted.
+
+(* "after the limiter has been idle for two full periods the next limit_for_period calls are admitted
+   without waiting", the calls spread arbitrarily in time (tries_at c ts l = the answers of try_acquire at the
+   instants ts in turn) ... *)
+Theorem C15_idle_two_periods_spread :
+  forall (c : cfg) (t0 : Z) (l : lim) (t1 : Z) (rest : list Z),
+    wfc c -> LimInv c t0 l -> t0 + 2 * period c <= t1 -> Z.of_nat (S (length rest)) <= limit c ->
+    Forall (eq (AOk None)) (tries_at c (t1 :: rest) l).
+Proof. exact idle_two_periods_spread. Qed.
+Print Assumptions C15_idle_two_periods_spread.
+
+(* ... and at the level run_script executes: from ANY reachable state s, after clock advances d, g with
+   d + g >= two periods and nothing else in between, up to limit distinct fresh callers, polled for the first time
+   at arbitrary later instants (Advance g' before each), all start their inner call in that first poll.
+   fresh_polls c s ((g,i) :: r) = started (step (step s (Advance g)) (Poll i)) :: fresh_polls ... r *)
+Theorem C15_idle_then_fresh_callers :
+  forall (c : cfg) (evs : list ev) (d g : Z) (i : nat) (rest : list (Z * nat)),
+    wfc c -> 2 * period c <= d + g -> 0 <= d -> 0 <= g ->
+    let s := fold_left (step_st c) evs (init c) in
+    NoDup (i :: map snd rest) -> cs s i = Created -> Forall (fun gi => cs s (snd gi) = Created) rest ->
+    Z.of_nat (S (length rest)) <= limit c ->
+    Forall (eq true) (fresh_polls c (step_st c s (Advance d)) ((g, i) :: rest)).
+Proof. exact idle_then_fresh_callers. Qed.
+Print Assumptions C15_idle_then_fresh_callers.
+
+(* capacity that time cannot take away (fixed: m permits left; log: m free slots; counter:
+   previous + current + m <= limit): the next call, at ANY instant, is admitted and leaves capacity m *)
+Theorem C15_capacity_step :
+  forall (c : cfg) (l : lim) (m t : Z),
+    wfc c -> 0 <= m -> m + 1 <= limit c -> cap c l (m + 1) ->
+    snd (try_acquire c t l) = AOk None /\ cap c (fst (try_acquire c t l)) m.
+Proof. exact cap_step. Qed.
+Print Assumptions C15_capacity_step.
+
+(* a decided call stays decided and goes nowhere: polling it again changes nothing *)
+Theorem C15_decided_stays_decided :
+  forall (c : cfg) (s : st) (i : nat),
+    cs s i = Done -> r (snd (poll c s i)) = 9 /\ started (snd (poll c s i)) = false /\
+    lm (fst (poll c s i)) = lm s /\ entered (fst (poll c s i)) = entered s /\ cs (fst (poll c s i)) i = Done.
+Proof. exact decided_stays. Qed.
+Print Assumptions C15_decided_stays_decided.
+
+(* a rejection admits nothing (it may refresh/rotate/prune the limiter, but the admission history is unchanged) *)
+Theorem C15_rejected_admits_nothing :
+  forall (c : cfg) (s : st) (i : nat),
+    wfc c -> r (snd (poll c s i)) = 3 -> adms (lm (fst (poll c s i))) = adms (lm s).
+Proof. exact rejected_admits_nothing. Qed.
+Print Assumptions C15_rejected_admits_nothing.
